@@ -77,6 +77,15 @@ static const char *ev_name(int e) { return EN[e]; }
 
 /* expected TPDO frames of the step, in order */
 static struct { int n; WFrame f[8]; } X;
+/* --opt cbtrig=1: the application triggers TPDO0 again from inside the COPdoTransmit callback of a TPDO0 frame (not from the nested one): with an inhibit
+ * time the new trigger has to wait for the end of the inhibit time that this very transmission started - and must not be lost */
+static int CBTRIG, cb_nested, m_nested;
+static void trigger(int i);
+static void c12_cb_hook(uint8_t kind, uint32_t a, uint32_t b, uint32_t c)
+{
+    (void)b; (void)c;
+    if (kind == CB_PDO_TRANSMIT && CBTRIG && !cb_nested && (a & 0x7FF) == 0x181) { cb_nested = 1; COTPdoTrigPdo(Node.TPdo, (uint16_t)TB); cb_nested = 0; }
+}
 static void transmit(int i)
 {
     MT *t = &M.t[i]; WFrame *f = &X.f[X.n < 8 ? X.n : 7]; X.n++;
@@ -87,6 +96,7 @@ static void transmit(int i)
     else { f->id = 0x281; f->dlc = 1; f->d[0] = P8; }
     if (t->inh) t->inh_rem = t->inh;
     if (t->evt) t->ev_rem = t->evt;
+    if (i == 0 && CBTRIG && !m_nested) { m_nested = 1; trigger(0); m_nested = 0; }
 }
 static void trigger(int i) { MT *t = &M.t[i]; if (!t->active) return; if (t->inh_rem > 0) t->pending = 1; else transmit(i); }
 static void deactivate(int i) { MT *t = &M.t[i]; t->active = 0; t->pending = 0; t->inh_rem = 0; t->ev_rem = 0; t->sync_cnt = 0; t->inh = 0; t->evt = 0; }
@@ -101,6 +111,7 @@ static int step(int e)
 {
     uint8_t d[8] = { 0 }; uint32_t r;
     X.n = 0;
+    CBTRIG = mc_opt("cbtrig", 0); w_cb_hook = CBTRIG ? c12_cb_hook : 0;
     if (e >= E_INVAL && !(M.op || 1)) return MC_SKIP;
     switch (e) {
     case E_TRIG0: trigger(0); COTPdoTrigPdo(Node.TPdo, (uint16_t)TB); break;
